@@ -15,7 +15,7 @@ from gen import types as T
 from gen.programs import INT, BOOL, STR, FLOAT, VOID, tup, fn, iter_of, arr, cell, multi
 from vlib import HARNESS_BIN, esc_field, harness_run, sexp_parse, sexp_str
 
-THM_MODULES = ["SslModel.Thm.C05"]
+THM_MODULES = ["SslModel.Thm.C05", "SslModel.Thm.C05Fuel"]
 TRANSLATE_PARTS = []
 I = lambda n: ("i", n)
 V = lambda x: ("id", x)
